@@ -172,3 +172,132 @@ Example C13_nonvacuous_event :
   Toy.av Toy.Did (rotw 152 Toy.ws6) (rotc 19 Toy.pads6)
   = [Aval 252 1 (-740)%Z 100%Z 80%Z; Aval 254 1 60%Z 60%Z 80%Z].
 Proof. vm_compute. repeat split; reflexivity. Qed.
+
+(* ===== centroid z: antisymmetry of the real formula under row reversal (the zf premise of the mirror theorem) — imported from Signal/Centroid_pins.v ===== *)
+(* C13 -- the hypothesis of C13_mirror_equivariant on the abstract centroid `zf`
+     forall r f m l, r <= 575 -> zf (575 - r) l m f = zneg (zf r f m l)
+   tied to the formula of pad_hits_at_t (physics/src/matching.rs:78-86) and TpcPadRow::z
+   (detector/src/padwing/map.rs:520-524), OVER THE REALS.  This file only pins statements; definitions:
+   Signal/Centroid.v, proofs: Signal/Centroid_proofs.v.
+
+     zR r first middle last = pad_row_z r + (sigma^2 / (2 w)) * ln (last / first),
+     sigma^2 = w^2 / ln (middle^2 / (first * last)),  w = PAD_PITCH_Z = 2.304 / 576,
+     pad_row_z r = (r + 1/2) * w - 2.304 / 2,   576 = gen_TPC_PAD_ROWS (regenerated from the source).
+
+   What remains between these theorems and the binary64 implementation -- ROUNDING ONLY:
+   * pad_row_z: `(row as f64 + 0.5) * PAD_PITCH_Z - DETECTOR_HALF_LENGTH` is evaluated with PAD_PITCH_Z =
+     fl(2.304 / 576), one rounded product and one rounded difference; the two mirrored rows round
+     independently, so fl(z(575 - r)) = - fl(z(r)) holds only up to a few ulp of 1.152 m (~ 1e-16 m).
+   * the centroid: powi(2), two products, two divisions and two libm `ln` calls, each correctly or
+     faithfully rounded; fl(ln(last/first)) and fl(ln(first/last)) are negatives of each other only up to the
+     rounding of the quotient and the accuracy of libm's ln; first * last is commutative in binary64, so
+     sigma^2 is bit-identical on both sides.  The term is bounded by w/2 * |ln(l/f)| / ln(m^2/(f l)) < w/2 = 2 mm
+     (under the hit condition |ln (l/f)| < ln (m^2/(f l))), hence the absolute discrepancy is of the order
+     of 1e-18..1e-15 m except when ln (m^2/(f l)) is itself at rounding level (middle within a few ulp of
+     both neighbours), where the quotient amplifies the relative error of the denominator.
+   * no real-number fact is missing: the formula is EXACTLY antisymmetric (C13_centroid_antisymmetric_real),
+     the hit condition is EXACTLY symmetric (C13_hit_condition_symmetric; the comparisons `>` on binary64
+     are exact, so this part carries over to the implementation as it is), and under the hit condition
+     every division and logarithm of the formula is well defined (C13_hit_condition_well_defined).
+   The property tolerates 1e-9 m; the binary64 discrepancy |z(mirrored) + z(original)| is MEASURED against
+   that tolerance by the `rel-mir` lines of the C13 differential run on every generated event (it is not
+   proved: a proof needs an error model of libm's ln, which the tooling present does not provide).
+
+   Allowed axioms: the standard library's real-number axioms (ClassicalDedekindReals.sig_forall_dec,
+   sig_not_dec, FunctionalExtensionality.functional_extensionality_dep, Classical_Prop.classic). *)
+From Coq Require Import Reals Lra.
+From AG Require Import Base.Prelude Signal.Centroid Signal.Centroid_proofs.
+Local Open Scope R_scope.
+
+(* TpcPadRow::z is odd under row -> 575 - row, for every row 0..=575 *)
+Theorem C13_pad_row_z_antisymmetric :
+  forall r : N, (r <= 575)%N -> pad_row_z (575 - r) = - pad_row_z r.
+Proof. exact pad_row_z_antisymmetric_lemma. Qed.
+Print Assumptions C13_pad_row_z_antisymmetric.
+
+(* the constants: z(row) = (row + 1/2) * 4 mm - 1.152 m *)
+Theorem C13_pad_row_z_value :
+  forall r : N, pad_row_z r = (NR r + /2) * (4 / 1000) - 1152 / 1000.
+Proof. exact pad_row_z_value_lemma. Qed.
+Print Assumptions C13_pad_row_z_value.
+
+(* the hit test of matching.rs:78 is invariant under exchanging first and last *)
+Theorem C13_hit_condition_symmetric :
+  forall first middle last : R,
+  hit_condition first middle last <-> hit_condition last middle first.
+Proof. exact hit_condition_symmetric_lemma. Qed.
+Print Assumptions C13_hit_condition_symmetric.
+
+(* the centroid of the mirrored triple at the mirrored row is minus the centroid *)
+Theorem C13_centroid_antisymmetric_real :
+  forall (r : N) (first middle last : R), (r <= 575)%N ->
+  hit_condition first middle last ->
+  zR (575 - r) last middle first = - zR r first middle last.
+Proof. exact centroid_antisymmetric_real_lemma. Qed.
+Print Assumptions C13_centroid_antisymmetric_real.
+
+(* under the hit condition the formula is a genuine real expression: non-zero divisors, positive arguments
+   of both logarithms, sigma^2 > 0 *)
+Theorem C13_hit_condition_well_defined :
+  forall first middle last : R,
+  hit_condition first middle last ->
+  first <> 0 /\ first * last > 0 /\ last / first > 0 /\ middle ^ 2 / (first * last) > 1 /\
+  ln (middle ^ 2 / (first * last)) > 0 /\ PAD_PITCH_Z > 0 /\
+  sigma_squared PAD_PITCH_Z first middle last > 0.
+Proof. exact hit_condition_well_defined_lemma. Qed.
+Print Assumptions C13_hit_condition_well_defined.
+
+(* the exact shape of the hypothesis of C13_mirror_equivariant (zt := R, amp := R, zf := zR, zneg := Ropp):
+   with Coq's total / and ln the identity needs no condition on the amplitudes, so C13_mirror_equivariant
+   can be instantiated with zf := zR and this theorem as its first premise *)
+Theorem C13_centroid_antisymmetric_total :
+  forall (r : N) (f m l : R), (r <= 575)%N -> zR (575 - r) l m f = Ropp (zR r f m l).
+Proof. exact centroid_antisymmetric_total_lemma. Qed.
+Print Assumptions C13_centroid_antisymmetric_total.
+
+(* non-vacuity: a triple satisfying the hit condition; a symmetric triple is centred on its row *)
+Example C13_hit_condition_example : hit_condition 1 3 2.
+Proof. unfold hit_condition. repeat split; lra. Qed.
+Example C13_centroid_symmetric_triple : forall r a m, zR r a m a = pad_row_z r.
+Proof.
+  intros. unfold zR, centroid_gen, pad_row_z. cbv zeta.
+  destruct (Req_dec a 0) as [->|Ha].
+  - unfold Rdiv at 4. rewrite Rinv_0, Rmult_0_r, ln_nonpos by lra. ring.
+  - unfold Rdiv at 4. rewrite Rinv_r by exact Ha. rewrite ln_1. ring.
+Qed.
+
+
+(* ===== centroid z: antisymmetry of the real formula under row reversal (the zf premise of the mirror theorem) — imported from Signal/Centroid_mirror_pins.v ===== *)
+(* C13 -- C13_mirror_equivariant instantiated over the reals with the ACTUAL centroid formula
+   (zt := R, amp := R, zf := zR of Signal/Centroid.v, zneg := Ropp, `> 0.0` and `>` the order of R):
+   the antisymmetry premise on zf and the comparability premise are discharged; what is left are the
+   premises on the sort (any permutation sorted by descending amplitude), the shape of the pad table and
+   NoPadTie (class pad_amplitude_tie, F6).  Pins only; axioms: the standard library's real-number axioms. *)
+From Coq Require Import Reals Permutation Sorted.
+From AG Require Import Base.Prelude Signal.Ring Signal.Avalanches Signal.Avalanches_proofs
+  Signal.Centroid Signal.Centroid_proofs.
+
+Theorem C13_mirror_equivariant_real :
+  forall (sig : Type) (D : list sig -> list (list R)) (P : sig -> list R)
+         (sortW : list (N * R) -> list (N * R)) (sortP : list (R * R) -> list (R * R)),
+    (forall l, Permutation (sortP l) l) ->
+    (forall l, StronglySorted (descP Rgtb) (sortP l)) ->
+    forall (ws : list (option sig)) (pads : list (list (option sig))),
+      Forall (fun col => N.of_nat (length col) = NROWS) pads ->
+      NoPadTie 0%R Rposb Rgtb zR P pads ->
+      avalanches 0%R Rposb Rgtb zR D P sortW sortP ws (mirror pads)
+      = map (neg_z Ropp) (avalanches 0%R Rposb Rgtb zR D P sortW sortP ws pads).
+Proof.
+  intros sig D P sortW sortP Hperm Hsorted ws pads Hrows Hnt.
+  apply (@mirror_equivariant_lemma sig R R 0%R Rposb Rgtb zR D P sortW sortP Ropp); auto.
+  - intros r f m l Hr. apply centroid_antisymmetric_total_lemma. exact Hr.
+  - exact Rgtb_total.
+Qed.
+Print Assumptions C13_mirror_equivariant_real.
+
+(* the boolean test used by the instance is the hit condition of the pinned real theorems *)
+Theorem C13_hit_condition_bool :
+  forall f m l : R, (Rposb f && Rposb l && Rgtb m f && Rgtb m l)%bool = true <-> hit_condition f m l.
+Proof. exact hit_condition_bool. Qed.
+Print Assumptions C13_hit_condition_bool.
+
